@@ -5,7 +5,11 @@ package main
 // on its image and fails (or yields arbitrary bytes) elsewhere. The compressed format
 // itself (header, deflate, CRC) is not encoded.
 
-import "go/types"
+import (
+	"encoding/hex"
+	"go/types"
+	"strings"
+)
 
 // bufData returns the bytes held by a *bytes.Buffer (a zero bytes.Buffer struct, or the
 // engine's buffer object).
@@ -277,6 +281,69 @@ func init() {
 		add := c.w.bytesAsStr(c.s, c.args[1])
 		c.w.sbSet(c.s, p, "strings.Builder", strConcat(c.w.sbGet(c.s, p, "strings.Builder"), add))
 		c.setTuple(sumLen(add), IfaceV{})
+		return nil, false
+	}
+}
+
+// small standard-library additions that refactorings of sso's code reach for
+func init() {
+	I := intrinsics
+	I["encoding/hex.EncodeToString"] = func(c *icall) ([]*State, bool) {
+		b := c.w.bytesAsStr(c.s, c.args[0])
+		if b.K == SLit {
+			c.set(litStr(hex.EncodeToString([]byte(b.S))))
+			return nil, false
+		}
+		// an injective function of the bytes whose value is a lower-case hex string, empty iff the input is
+		v := c.w.applyUFInj(c.s, "hex", []Value{b})
+		c.s.addPC("(str.in_re " + v + " (re.* (re.union (re.range \"0\" \"9\") (re.range \"a\" \"f\"))))")
+		c.s.addPC(tEq(tEq(v, `""`), tEq(b.term(), `""`)))
+		c.set(opaqueStr(v))
+		return nil, false
+	}
+	I["strconv.AppendInt"] = func(c *icall) ([]*State, bool) {
+		base, ok := c.args[2].(IntV)
+		if !ok || !base.C || base.N != 10 {
+			panic(engineErr("strconv.AppendInt with a base other than 10"))
+		}
+		dst := litStr("")
+		if sl := c.args[0].(SliceV); sl.Obj != 0 {
+			dst = c.w.stringOfBytes(c.s, sl).(StrV)
+		}
+		c.set(c.w.bytesOfString(c.s, strConcat(dst, intToStr(c.args[1].(IntV)))))
+		return nil, false
+	}
+	I["strings.Cut"] = func(c *icall) ([]*State, bool) {
+		a, sep := c.str(0), c.str(1)
+		if a.K == SLit && sep.K == SLit {
+			b, af, found := strings.Cut(a.S, sep.S)
+			c.setTuple(litStr(b), litStr(af), mkBool(found))
+			return nil, false
+		}
+		// found = contains; s = before ++ sep ++ after with no sep in before - or before = s, after = ""
+		found := strContains(a, sep)
+		before := c.w.E.freshVar(c.s, "cut.before", "String")
+		after := c.w.E.freshVar(c.s, "cut.after", "String")
+		yes := tAnd(tEq(a.term(), "(str.++ "+before+" "+sep.term()+" "+after+")"), tNot(strContains(opaqueStr(before), sep)))
+		no := tAnd(tEq(before, a.term()), tEq(after, `""`))
+		c.s.addPC(tIte(found, yes, no))
+		c.setTuple(opaqueStr(before), opaqueStr(after), BoolV{found})
+		return nil, false
+	}
+	I["sort.Sort"] = func(c *icall) ([]*State, bool) {
+		iv := c.args[0].(IfaceV)
+		if isNamed(iv.Typ, "sort", "StringSlice") {
+			if m, ok := c.w.E.Models["sort_Strings"]; ok {
+				c.w.E.hitModel("gomodel:sort_Strings")
+				return c.w.enter(c.s, c.dest, FuncV{Fn: m}, []Value{iv.V})
+			}
+		}
+		panic(engineErr("sort.Sort of something other than a sort.StringSlice"))
+	}
+	I["time.AfterFunc"] = func(c *icall) ([]*State, bool) {
+		// a timer whose function never fires within the explored window (as time.After channels
+		// that are never ready): cache purges by timer are outside the bounded histories
+		c.set(c.s.alloc(OpaqueObj{Kind: "time.Timer"}))
 		return nil, false
 	}
 }
